@@ -1,25 +1,36 @@
-"""Developer helper: python3 -m engine.dev <harness_file> <name> [timeout] [extra kani args...]"""
-import json, os, sys, tempfile
+"""Developer helper: python3 -m engine.dev <harness_file> <name1,name2,...> [timeout] [extra kani args...]
+env: VERIF_REPO to point at another tree; KEEP=1 keeps the scratch dir."""
+import concurrent.futures as cf
+import json, os, sys
 from . import overlay, kani_run
 
 def main():
-    hf, name = sys.argv[1], sys.argv[2]
+    hf, names = sys.argv[1], sys.argv[2].split(",")
     timeout = int(sys.argv[3]) if len(sys.argv) > 3 else 900
     extra = sys.argv[4:]
     keep = os.environ.get("KEEP")
     crate = hf.split("/")[0]
     crates = ("core",) if crate == "core" else (("core", "cli") if crate == "cli" else ("golden",))
-    scratch = os.environ.get("SCRATCH") or overlay.make_overlay("kani", crates=crates)
-    print("scratch", scratch)
-    logd = os.path.join(scratch, "logs"); os.makedirs(logd, exist_ok=True)
+    scratch = overlay.make_overlay("kani", crates=crates)
+    logd = os.path.join(overlay.VERIF, "logs", "dev"); os.makedirs(logd, exist_ok=True)
     try:
-        r = kani_run.run_harness(scratch, {"file": hf, "name": name, "keep_target": bool(keep)}, logd, timeout, extra)
-        r2 = dict(r); r2["covers"] = [(c["description"], c["status"]) for c in r["covers"]]
-        r2["failed"] = [(c["description"], c["location"]) for c in r["failed"]]
-        print(json.dumps(r2, indent=1))
-        if r["verdict"] is None:
-            os.system("tail -40 %s" % r["log"])
+        with cf.ThreadPoolExecutor(max_workers=6) as ex:
+            futs = {ex.submit(kani_run.run_harness, scratch, dict({"file": hf, "name": n}, **dict(({"recursion": json.loads(os.environ["RECURSION"])} if os.environ.get("RECURSION") else {}), **({"map_cap": int(os.environ["CAP"])} if os.environ.get("CAP") else {}))), logd, timeout, extra): n for n in names}
+            for fut in cf.as_completed(futs):
+                r = fut.result()
+                print("== %s verdict=%s wall=%ss vt=%s rss=%sMB checks=%s timed_out=%s err=%s" % (
+                    r["harness"], r["verdict"], r["wall_s"], r["verification_time_s"], r["peak_rss_mb"],
+                    r["n_checks"], r["timed_out"], r["compile_or_cbmc_error"]))
+                for c in r["failed"]:
+                    print("   FAIL:", c["description"], "@", c["location"][:110])
+                for c in r["covers"]:
+                    print("   cover:", c["description"], c["status"])
+                if r["verdict"] is None or r["compile_or_cbmc_error"]:
+                    os.system("grep -n -E '^error|^warning: unused|panicked|Out of memory|error\\[' -A6 %s | head -60" % r["log"])
+                sys.stdout.flush()
     finally:
         if not keep:
             overlay.remove_overlay(scratch)
+        else:
+            print("scratch", scratch)
 main()
